@@ -102,6 +102,8 @@ func classifyRefusal(msg string) string {
 		return "variables-validation"
 	case strings.Contains(msg, "Int cannot represent non 32-bit"):
 		return "int-range"
+	case strings.Contains(msg, "not allowed on node of kind: INLINE_FRAGMENT"):
+		return "directive-location-inline-fragment"
 	case strings.Contains(msg, "conflict"):
 		return "field-merge-conflict"
 	case strings.Contains(msg, "oneOf") || strings.Contains(msg, "OneOf"):
@@ -124,6 +126,7 @@ func (p c04) Run(c *fw.Ctx, idx int) fw.Result {
 	sp := gen.DefaultProfile(r)
 	sp.Keywords = idx%5 == 0
 	sp.Subscription = idx%6 == 0
+	sp.ExecDirectives = idx%2 == 1
 	schema := gen.GenSchema(r, sp)
 	sdl := schema.SDL()
 	ss, err := rig.LoadSchemas(sdl)
@@ -135,6 +138,7 @@ func (p c04) Run(c *fw.Ctx, idx int) fw.Result {
 	op.MultiOps = idx%7 == 0
 	op.NoSingletonVars = idx%2 == 0
 	op.MultiFrag = idx%3 != 0
+	op.CustomDirs = true
 	if idx%4 == 1 {
 		op.VarBias = 7
 	}
@@ -190,7 +194,7 @@ func (p c04) Run(c *fw.Ctx, idx int) fw.Result {
 		if cls == "variables-validation" {
 			res.Count("valid_refused_by_variables_validation", 1)
 		} else {
-			res.Violate("rejects-valid", "ExecutionEngine.Execute refuses a valid operation: "+a.Err, map[string]string{"sequence": "engine", "error_class": cls, "operation_kind": doc.Ops[0].Kind, "multi_operation": fmt.Sprint(op.MultiOps), "nullability_only_conflict": fmt.Sprint(nullabilityOnlyConflict(a.Err))}, detail(nil))
+			res.Violate("rejects-valid", "ExecutionEngine.Execute refuses a valid operation: "+a.Err, map[string]string{"sequence": "engine", "error_class": cls, "operation_kind": doc.Ops[0].Kind, "multi_operation": fmt.Sprint(op.MultiOps), "nullability_only_conflict": fmt.Sprint(nullabilityOnlyConflict(a.Err)), "spread_directive_without_inline_fragment_location": fmt.Sprint(gen.SpreadDirectiveNotForInline(schema, doc))}, detail(nil))
 		}
 	} else {
 		res.Count("engine_admitted_valid", 1)
